@@ -68,6 +68,20 @@ def _gen_step(rng, sim, removed_pool, failing, tags):
         st = _gen_reconnect_step(rng, sim)
         if st is not None:
             return st
+    if sim.version == "gfa2" and rng.random() < 0.12:
+        # a further line of an existing group (documented merge): its items are appended
+        groups = [(n, r) for n, r in named if r.rt in ("O", "U")]
+        pool = [(n, r) for n, r in named if r.rt in ("S", "E")]
+        if groups and pool:
+            n, r = rng.choice(groups)
+            items = [rng.choice(pool)[0] for _ in range(rng.randint(1, 2))]
+            if n not in items:
+                txt = " ".join(i + (rng.choice("+-") if r.rt == "O" else "") for i in items)
+                tg = ""
+                if tags and rng.random() < 0.4:
+                    tn = V.tagname(rng, used=[t[0] for t in r.tags])
+                    tg = "\t%s:i:%d" % (tn, rng.randint(0, 9))
+                return {"op": "add", "line": "%s\t%s\t%s%s" % (r.rt, n, txt, tg), "as": rng.choice(["str", "line"])}
     if k < 0.40 and sim.recs:
         # removal
         cand = [r for r in sim.recs if r.rt not in ("H",)]
